@@ -73,7 +73,7 @@ def _module_str_consts(module):
 
 
 def _specialise(expr, w):
-    """resolve  a if mesh_type == "<x>" else b  for mesh type w (copy of the expression)"""
+    """resolve  a if mesh_type == "<x>" else b   and   {"primal": a, "dual": b}[mesh_type]   for mesh type w (copy of the expression)"""
     class T(ast.NodeTransformer):
         def visit_IfExp(self, n):
             self.generic_visit(n)
@@ -81,6 +81,14 @@ def _specialise(expr, w):
             if mt is None:
                 return n
             return n.body if mt == w else n.orelse
+
+        def visit_Subscript(self, n):
+            self.generic_visit(n)
+            if isinstance(n.value, ast.Dict) and isinstance(n.slice, ast.Name) and n.slice.id == "mesh_type":
+                for k, v in zip(n.value.keys, n.value.values):
+                    if k is not None and str_const(k) == w:
+                        return v
+            return n
     import copy
     return T().visit(copy.deepcopy(expr))
 
@@ -194,6 +202,8 @@ def mpas_function_table(f: FuncInfo):
     in_ds, out_ds = params[0], params[1]
     has_mt = "mesh_type" in params
     result = {"primal": {}, "dual": {}}
+    names = {}       # mesh type -> local name -> string constant it holds
+    computed = {}    # mesh type -> number of stores under a key that could not be resolved
 
     def walk(stmts, which, defs):
         """defs: mesh type -> local name -> (source keys, opaque) on this branch"""
@@ -221,15 +231,33 @@ def mpas_function_table(f: FuncInfo):
                     for t in st.targets:
                         if isinstance(t, ast.Name):
                             defs.setdefault(w, {})[t.id] = (srcs, opaque)
+                            if str_const(val) is not None:
+                                names.setdefault(w, {})[t.id] = str_const(val)
+                            else:
+                                names.setdefault(w, {}).pop(t.id, None)
                         elif isinstance(t, ast.Subscript) and isinstance(t.value, ast.Name) and t.value.id == out_ds and str_const(t.slice):
                             result[w][str_const(t.slice)] = (srcs, st, opaque)
+                        elif isinstance(t, ast.Subscript) and isinstance(t.value, ast.Name) and t.value.id == out_ds and isinstance(t.slice, ast.Name) and t.slice.id in names.get(w, {}):
+                            # a second store under the same key on this mesh type (two table rows mapped to one name) keeps BOTH source sets: that is what the file would receive last
+                            key_ = names[w][t.slice.id]
+                            if key_ in result[w]:
+                                prev = result[w][key_]
+                                result[w][key_] = (set(prev[0]) | srcs, st, prev[2] or opaque)
+                            else:
+                                result[w][key_] = (srcs, st, opaque)
+                        elif isinstance(t, ast.Subscript) and isinstance(t.value, ast.Name) and t.value.id == out_ds:
+                            computed[w] = computed.get(w, 0) + 1
                         elif isinstance(t, ast.Tuple):
                             for e in t.elts:
                                 if isinstance(e, ast.Name):
                                     defs.setdefault(w, {})[e.id] = (srcs, opaque)
 
     walk(f.node.body, ["primal", "dual"], {})
+    mpas_function_table.computed[f.key] = computed
     return result, has_mt
+
+
+mpas_function_table.computed = {}
 
 
 def mpas_call_modes(program):
